@@ -1,7 +1,7 @@
 #!/usr/bin/env python3
 """usage: errs.py <lean output file> : prints for each grind failure the case tag, non-standard hyps and the goal"""
 import sys,re
-STD=set("dEf pidxA unl anh hcr dT pre0 psetB hbT refR aB bpos ainv sim nSB nUaf nDf nPn idleN cons0 alc pre newc preA preR nb0 nb1 nb2 drp dfl geo fresh tw nbv cl1 cl2 cl3 pset pcas cAl cWt cLk cTl lnk rdyR valR hd hb1 hb2 hb3 lHb lPi lCi lFast lStore lCopy lHead dE dF1 df2a df2b df3 oldR1 oldR2 liveR A_hl A_lr A_lc A_helped A_rdy psetA waitA hsim n sh pcs apcs t e hlt hq".split())
+STD=set("psv psU lRd dEf pidxA unl anh hcr dT pre0 psetB hbT refR aB bpos ainv sim nSB nUaf nDf nPn idleN cons0 alc pre newc preA preR nb0 nb1 nb2 drp dfl geo fresh tw nbv cl1 cl2 cl3 pset pcas cAl cWt cLk cTl lnk rdyR valR hd hb1 hb2 hb3 lHb lPi lCi lFast lStore lCopy lHead dE dF1 df2a df2b df3 oldR1 oldR2 liveR A_hl A_lr A_lc A_helped A_rdy psetA waitA hsim n sh pcs apcs t e hlt hq".split())
 lines=open(sys.argv[1]).read().split('\n')
 i=0
 while i<len(lines):
